@@ -139,6 +139,20 @@ def run(ctx):
             for n in walk(root):
                 if n.parent is not None and rng.random() < 0.4:
                     n.parent = None
+        # ... or a stale one: a node moved elsewhere still names its former parent (remove_child / replace_child leave the link),
+        # and a root that carries a prefix its own map does not bind (a hand-built or JSON-loaded tree)
+        if rng.random() < 0.25:
+            # (towards the root only: a parent chain that runs in a circle makes get_ancestry spin on the unchanged code too)
+            deep = [n for n in walk(root) if n.parent is not None and n.parent is not root]
+            for n in deep:
+                if rng.random() < 0.3:
+                    n.parent = root
+        if rng.random() < 0.25:
+            root.prefix = "eml"
+            root.nsmap = {k: v for k, v in root.nsmap.items() if k != "eml"}
+            for n in walk(root):
+                if n is not root and "eml" in n.nsmap and rng.random() < 0.7:
+                    n.nsmap = {k: v for k, v in n.nsmap.items() if k != "eml"}
         # registry pre-states other than "every node registered under its own id": an id bound to ANOTHER object (a clone
         # loaded from this tree's JSON re-uses the ids) or absent (entry deleted while the node is still in the tree)
         keep_alive = []
